@@ -156,6 +156,47 @@ def at(s: str) -> str:
     return "@" if s == "" or s is None else s
 
 
+def aval(v) -> str:
+    """canonical text of an attribute value (shared by the trace encoding and the reading of real nodes)."""
+    import re as _re
+    if isinstance(v, bool):
+        return f"i:{int(v)}"
+    if isinstance(v, (int, np.integer)):
+        return f"i:{int(v)}"
+    if isinstance(v, (float, np.floating)):
+        return f"f:{float(v)!r}"
+    if isinstance(v, str):
+        return "s:" + _re.sub(r"[^A-Za-z0-9_.-]", "_", v)
+    if isinstance(v, (list, tuple)):
+        if all(isinstance(x, (int, np.integer)) for x in v):
+            return "is:" + ";".join(str(int(x)) for x in v)
+        if all(isinstance(x, (float, np.floating, int)) for x in v):
+            return "fs:" + ";".join(repr(float(x)) for x in v)
+        return "l"
+    return "t"
+
+
+def real_attrs(n) -> list[tuple[str, str]]:
+    """attributes of a real ir.Node, sorted by name, graph-valued ones left out (they are wired separately);
+    a reference attribute (function bodies only) reads `>param`."""
+    ir = R().ir
+    out = []
+    for a in n.attributes.values():
+        if a.type in (ir.AttributeType.GRAPH, ir.AttributeType.GRAPHS):
+            continue
+        if a.ref_attr_name is not None:
+            out.append((a.name, ">" + a.ref_attr_name))
+        elif a.type == ir.AttributeType.TENSOR:
+            out.append((a.name, "t"))
+        else:
+            out.append((a.name, aval(a.value)))
+    return sorted(out)
+
+
+def enc_attrs(d) -> str:
+    return "&".join(f"{k}={aval(v)}" for k, v in sorted((d or {}).items())) or "@"
+
+
 def fn_token(obj) -> str:
     g = fn_graph(obj)
     dom, name, overload = fn_domain_name(obj)
@@ -163,9 +204,14 @@ def fn_token(obj) -> str:
     for n in g:
         ins = ";".join("@" if i is None else i.name for i in n.inputs)
         outs = ";".join(at(o.name) for o in n.outputs)
-        nodes.append("^".join([at(n.name or ""), at(n.domain), n.op_type, ins, outs]))
+        attrs = "&".join(f"{k}={v}" for k, v in real_attrs(n)) or "@"
+        nodes.append("^".join([at(n.name or ""), at(n.domain), n.op_type, ins, outs, attrs]))
+    ir = R().ir
+    fir = obj if isinstance(obj, ir.Function) else obj.function_ir
+    params = "&".join(k if a.value is None else f"{k}={aval(a.value)}" for k, a in fir.attributes.items()) or "@"
     return "|".join(
-        ["F", name, at(dom), at(overload), ";".join(v.name for v in g.inputs), ";".join(v.name for v in g.outputs), "~".join(nodes)]
+        ["F", name, at(dom), at(overload), ";".join(v.name for v in g.inputs), ";".join(v.name for v in g.outputs),
+         "~".join(nodes), params]
     )
 
 
@@ -198,7 +244,7 @@ def encode(items, out: list[str], done_counter: list[int]):
             out.append(
                 "|".join(
                     ["O", at(it["op"]), ",".join(enc_arg(a) for a in it["args"]), enc_outs(it["outs"]),
-                     at(it.get("nname")), ";".join(str(g) for g in it.get("graphs", []))]
+                     at(it.get("nname")), ";".join(str(g) for g in it.get("graphs", [])), enc_attrs(it.get("attrs"))]
                 )
             )
         elif k == "P":
@@ -207,12 +253,14 @@ def encode(items, out: list[str], done_counter: list[int]):
             out.append("Q")
         elif k == "C":
             o = it.get("outs")
-            out.append("|".join(["C", str(it["f"]), ",".join(enc_arg(a) for a in it["args"]), "@" if o is None else enc_outs(o)]))
+            out.append("|".join(["C", str(it["f"]), ",".join(enc_arg(a) for a in it["args"]),
+                                 "@" if o is None else enc_outs(o), enc_attrs(it.get("attrs"))]))
         elif k == "L":
             o = it.get("outs")
             out.append(
                 "|".join(["L", str(it["f"]), ",".join(enc_arg(a) for a in it["args"]),
-                          "@" if o is None else "e" + ";".join(at(x) for x in o), at(it.get("pfx", ""))])
+                          "@" if o is None else "e" + ";".join(at(x) for x in o), at(it.get("pfx", "")),
+                          enc_attrs(it.get("attrs"))])
             )
         elif k == "S":
             out.append(f"B|{it['gname']}|" + ";".join(i["name"] for i in it["inputs"]))
@@ -337,7 +385,7 @@ class RealExec:
             gs = [ga.pop(k) for k in ("then_branch", "else_branch", "body") if k in ga] + list(ga.values())
             return "|".join(
                 [n.name or "", n.domain, n.op_type + (":" + n.overload if n.overload else ""), ",".join(nm(i) for i in n.inputs),
-                 ",".join(nm(o) for o in n.outputs), ",".join(gs)]
+                 ",".join(nm(o) for o in n.outputs), ",".join(gs), "&".join(f"{k}={v}" for k, v in real_attrs(n))]
             )
 
         parts = []
@@ -1368,6 +1416,16 @@ def run_nn_real(prog, numeric=False):
     except NotImplementedError:
         obs["callable"] = False
     obs["sub_depth"], obs["param_depth"] = NN_CTX["maxdepth"], NN_CTX["param_depth"]
+    obs["numeric_checked"] = bool(numeric)
+
+    def ctl_paths(m, path, out):
+        if isinstance(m, Ctl):
+            out.append(path)
+        for k, c in m._modules.items():
+            ctl_paths(c, path + [k], out)
+        return out
+
+    obs["ctl_paths"] = ctl_paths(root, [], [])
     if obs["callable"] and numeric:
         # the serialized model against the NumPy meaning of the generic forwards, both branches
         xv = np.array([0.5, -1.0, 2.0], dtype=np.float32)
@@ -1559,14 +1617,18 @@ class NNGen:
 
 def check_nn_cases(run, drv, progs, stats):
     problems = []
-    # a control module (`MC`) is an ordinary Module for the naming model
-    outs = drv.ask(["nn " + " ".join("M" + t[2:] if t.startswith("MC|") else t for t in p["prog"]) for p in progs])
-    for p, mline in zip(progs, outs):
+    # the model builds a control module (`MC`) like a Module and is told *where* in the final tree the control
+    # modules sit (`CTL|path`), read off the real objects: there the children run in a sub-builder
+    obs_all = [run_nn_real(p["prog"], numeric=p.get("ctl", False) or i % 4 == 0) for i, p in enumerate(progs)]
+    outs = drv.ask([
+        "nn " + " ".join(["M" + t[2:] if t.startswith("MC|") else t for t in p["prog"]]
+                         + ["CTL|" + ("/".join(path) or "@") for path in o["ctl_paths"]])
+        for p, o in zip(progs, obs_all)])
+    for p, mline, obs in zip(progs, outs, obs_all):
         stats["nn_cases"] += 1
         if mline == "bad-op":
             raise core.Infra("nn program rejected by the model driver: " + " ".join(p["prog"]))
         sec = dict(s.split(" ", 1) if " " in s else (s, "") for s in mline.split(" | "))
-        obs = run_nn_real(p["prog"], numeric=p.get("ctl", False) or stats["nn_cases"] % 4 == 0)
         stats[f"nn_subgraph_depth_{obs['sub_depth']}"] += 1
         stats["nn_param_in_depth2_subgraph"] += obs["param_depth"] >= 2
         m_callable = sec["CALLABLE"] == "1"
@@ -1602,7 +1664,7 @@ def check_nn_cases(run, drv, progs, stats):
         elif obs["numeric"]:
             problems.append((p, "property", "module graph computes something else: " + obs["numeric"]))
         if obs["callable"]:
-            stats["nn_ort_checked"] += p.get("ctl", False) or (stats["nn_cases"] % 4 == 0)
+            stats["nn_ort_checked"] += obs["numeric_checked"]
     return problems
 
 
@@ -1666,6 +1728,80 @@ def nn_witnesses():
     net(gb.op, x, c)
     res["D20e"] = (list(g.initializers.keys()), ["net." + k for k in net.state_dict()])
     return res
+
+
+# --------------------------------------------------------------------------- partition stream
+
+PART_OPS = ["ReduceMax", "ReduceMean", "ReduceMin", "ReduceSum", "ReduceProd", "Squeeze", "Unsqueeze", "Split", "Clip",
+            "Pad", "TopK", "Dropout", "Resize", "Slice", "Add", "Concat", "Max", "Sum", "Relu", "Cast", "Where", "Reshape",
+            "Softmax", "Gather", "Gemm", "Conv", "If", "Loop", "Constant", "Shape", "LeakyRelu", "BatchNormalization"]
+
+
+def check_partition(run, drv, stats, rng, n):
+    """`BuilderBase._partition_inputs_attributes` on real schemas of many (operator, opset version) pairs, in random
+    order within ONE process, against the Lean `partition` on the signature extracted from that very schema."""
+    r = R()
+    onnx, ir, B = r.onnx, r.ir, r.B
+    g = ir.Graph(name="main", inputs=[], outputs=[], nodes=[], opset_imports={"": OPSET})
+    gb = B.GraphBuilder(g)
+    cases, lines = [], []
+    for _ in range(n):
+        op = rng.choice(PART_OPS)
+        ver = rng.randint(11, 21)
+        try:
+            schema = onnx.defs.get_schema(op, ver, "")
+        except Exception:
+            continue
+        sig = ir.schemas.OpSignature.from_op_schema(schema)
+        params = list(sig.params)
+        spec = ";".join(
+            ":".join([p.name, str(int(p.is_param())), str(int(bool(p.is_param() and p.variadic))), str(int(bool(p.required))),
+                      str(int(bool((not p.is_param()) and p.has_default())))])
+            for p in params) or "@"
+        npos = rng.randint(0, len(params) + 1) if rng.random() < 0.9 else len(params) + 2
+        args = [f"a{i}" for i in range(npos)]
+        kw = {}
+        for p in params:
+            if rng.random() < 0.3:
+                kw[p.name] = "k_" + p.name
+        if rng.random() < 0.07:
+            kw["zz_unknown"] = "k_zz"
+        cases.append((op, ver, schema.since_version, schema, args, kw))
+        lines.append("part " + spec + " " + (";".join(args) or "@") + " " + ("&".join(f"{k}={v}" for k, v in kw.items()) or "@"))
+    outs = drv.ask(lines)
+    problems = []
+    seen_versions = set()
+    for (op, ver, since, schema, args, kw), mline in zip(cases, outs):
+        stats["part_cases"] += 1
+        seen_versions.add((op, since))
+        try:
+            ins, attrs = gb._partition_inputs_attributes(schema, list(args), dict(kw))
+            real = "OK " + ";".join(ins) + " | " + "&".join(f"{k}={v}" for k, v in attrs.items())
+            stats["part_ok"] += 1
+        except TypeError as e:
+            msg = str(e)
+            if msg.startswith("Unexpected keyword"):
+                real = "ERR extra-kwargs"
+            elif msg.startswith("Required input"):
+                real = "ERR missing"
+            elif msg.startswith("Too many positional"):
+                real = "ERR too-many"
+            else:
+                real = "ERR other " + msg[:60]
+            stats["part_" + real.split()[1]] += 1
+        m = mline if not mline.startswith("ERR missing") else "ERR missing"
+        if real != m:
+            problems.append(({"partition": {"op": op, "version": ver, "since_version": since, "args": args, "kwargs": kw}},
+                             "tie", f"_partition_inputs_attributes({op}@{ver}, {args}, {kw}): impl {real!r} vs model {mline!r}"))
+        else:
+            # the property side: a positional argument that is neither an input nor an attribute value was dropped
+            if real.startswith("OK"):
+                placed = set(ins) | set(attrs.values())
+                if not set(args) <= placed:
+                    problems.append(({"partition": {"op": op, "version": ver, "args": args, "kwargs": kw}}, "property",
+                                     f"{op}@{ver}: positional arguments {sorted(set(args) - placed)} silently dropped"))
+    stats["part_op_versions"] = len(seen_versions)
+    return problems
 
 
 # --------------------------------------------------------------------------- main
@@ -1759,6 +1895,9 @@ def main(run: core.Run) -> None:
     for p in progs[:3]:
         run.sample(" ".join(p["prog"]))
 
+    # ---- argument partition stream (operator signatures of many opset versions, one process)
+    all_problems += check_partition(run, drv, stats, rng, run.size(1500, 15000))
+
     # ---- witnesses of the known findings, replayed on the real code (and on the model)
     wit = witness_cases(fntab)
     for fid, c in wit.items():
@@ -1814,7 +1953,7 @@ def main(run: core.Run) -> None:
         stats["known_in_stream_" + k] = v
 
     def jcase(c):
-        return case_json(c) if "trace" in c else {k: v for k, v in c.items() if k in ("prog", "explicit", "diverging", "witness", "ctl")}
+        return case_json(c) if "trace" in c else {k: v for k, v in c.items() if k in ("prog", "explicit", "diverging", "witness", "ctl", "partition")}
 
     if prop_fail:
         prop_fail.sort(key=lambda x: len(json.dumps(jcase(x[0]))))
@@ -1854,7 +1993,7 @@ def main(run: core.Run) -> None:
     )
     if stats["builder_cases"] and stats["builder_real_error"] > 0.3 * stats["builder_cases"]:
         raise core.Infra("generator degenerated: >30% of traces refused by the builder")
-    for need in ("If", "Loop", "inline", "call", "two_overloads_in_trace", "call_overloaded_name", "inline_passthrough", "default_attr_omitted", "plain_attr", "nested_list_after_naming", "nn_param_in_depth2_subgraph", "reduce_axes_attr", "default_attr_omitted_s_leaky0", "default_attr_omitted_s_softmax0", "lit_list", "multi_output", "push", "append_after_naming", "slice", "kind_seq", "kind_list"):
+    for need in ("If", "Loop", "inline", "call", "two_overloads_in_trace", "call_overloaded_name", "inline_passthrough", "default_attr_omitted", "plain_attr", "nested_list_after_naming", "nn_param_in_depth2_subgraph", "part_ok", "part_extra-kwargs", "part_missing", "part_too-many", "reduce_axes_attr", "default_attr_omitted_s_leaky0", "default_attr_omitted_s_softmax0", "lit_list", "multi_output", "push", "append_after_naming", "slice", "kind_seq", "kind_list"):
         if not stats[need]:
             raise core.Infra(f"generator never produced construct {need}")
 
